@@ -24,6 +24,7 @@ func init() { verifChecks["C09"] = checkC09 }
 type c09Case struct {
 	DisableSS bool     `json:"disable_semi_sync_replication_on_maintenance"`
 	Hist      []string `json:"history"`
+	Cascade   bool     `json:"with_cascade_replica_c1,omitempty"`
 }
 
 var c09Alphabet = []string{"mgrTick", "candTick", "onFull", "onLight", "off", "delKey", "restartMgr", "zkDown", "zkUp",
@@ -34,8 +35,11 @@ func c09Run(r *vt.Run, c c09Case) (canon string) {
 	spec := Spec{HA: []string{"h1", "h2", "h3"}, Conf: map[string]string{"failover": "true", "failover_cooldown": "1s", "slave_catch_up_timeout": "6s",
 		"wait_start_replication_timeout": "2s", "replication_convergence_timeout_switchover": "5s", "dcs_wait_timeout": "4s",
 		"disable_semi_sync_replication_on_maintenance": fmt.Sprint(c.DisableSS)}}
+	if c.Cascade {
+		spec.Cascade = map[string]string{"c1": "h2"}
+	}
 	violate := func(clause, detail string) {
-		r.Violate("C09/"+clause, detail+fmt.Sprintf("; disable_semisync_on_maintenance=%v history %v", c.DisableSS, c.Hist), c)
+		r.Violate("C09/"+clause, detail+fmt.Sprintf("; disable_semisync_on_maintenance=%v cascade=%v history %v", c.DisableSS, c.Cascade, c.Hist), c)
 	}
 	Bubble(r.T, spec, func(h *H) {
 		h.BuildConverged()
@@ -71,13 +75,21 @@ func c09Run(r *vt.Run, c c09Case) (canon string) {
 		}
 		var tickMastersAtStart []string
 		inTickOf := ""
+		// paused[host]: the instance on host has itself seen the current maintenance (it wrote its
+		// marker file); an instance that was cut off from the coordination service before it ever read
+		// the key cannot know about it
+		pausedHost := func(host string) bool { return w.VFSHas("/vfs/" + host + "/maintenance") }
 		w.OnApply = append(w.OnApply, func(ap *sim.Applied) {
 			if !ap.Effect || !strings.HasPrefix(ap.Call.Proc, "h") {
 				return
 			}
 			if frozen() {
 				if ap.Call.Kind == "sql" && ap.Changed {
-					violate("1-full-maintenance-freezes-mysql", fmt.Sprintf("%s changed %s with %q while full maintenance is acknowledged", ap.Call.Proc, ap.Call.Target, ap.Call.SQL))
+					who := "/by-an-instance-that-had-paused"
+					if p := w.Procs[ap.Call.Proc]; p != nil && !pausedHost(p.Host) {
+						who = "/by-an-instance-that-never-saw-the-key"
+					}
+					violate("1-full-maintenance-freezes-mysql"+who, fmt.Sprintf("%s changed %s with %q while full maintenance is acknowledged", ap.Call.Proc, ap.Call.Target, ap.Call.SQL))
 				}
 				if ap.Call.Kind == "sql" && ap.Call.Mut && !ap.Changed {
 					r.Count("idempotent_statements_while_frozen")
@@ -125,7 +137,7 @@ func c09Run(r *vt.Run, c c09Case) (canon string) {
 				return
 			}
 			tickMastersAtStart = nil
-			for _, x := range spec.HA {
+			for _, x := range spec.AllHosts() {
 				if s := w.Servers[x]; s.Up && !s.HasSource {
 					tickMastersAtStart = append(tickMastersAtStart, x)
 				}
@@ -201,6 +213,11 @@ func c09Run(r *vt.Run, c c09Case) (canon string) {
 				if s2.Up && frozen() {
 					s2.IORunning, s2.SQLRunning, s2.HasSource, s2.Source = false, false, false, ""
 					s2.ReadOnly, s2.SuperRO = false, false
+				}
+			case "detachC1":
+				// the operator detaches the cascade replica (STOP REPLICA; RESET REPLICA ALL): a second alive master
+				if c1 := w.Servers["c1"]; c1 != nil && c1.Up && frozen() {
+					c1.IORunning, c1.SQLRunning, c1.HasSource, c1.Source = false, false, false, ""
 				}
 			case "stopReplH3":
 				if frozen() {
@@ -297,7 +314,7 @@ func checkC09(r *vt.Run) {
 	for _, dss := range []bool{true, false} {
 		dss := dss
 		runner := func(hist []string) string {
-			c := c09Case{dss, hist}
+			c := c09Case{DisableSS: dss, Hist: hist}
 			r.Crumb(c)
 			if len(hist) >= 3 && len(hist) <= 4 && hist[0] == "onFull" && hist[1] == "mgrTick" && hist[2] == "promoteH2" {
 				r.Sample(c)
@@ -327,5 +344,16 @@ func checkC09(r *vt.Run) {
 			return runner(append(append([]string(nil), prefix2...), hist...))
 		})
 	}
-	r.Bound("initial_states", "converged; full maintenance acknowledged by manager and candidate; light maintenance acknowledged")
+	// with a registered cascade replica (smaller alphabet): what counts as "exactly one alive master"
+	cascAlpha := []string{"mgrTick", "candTick", "off", "detachC1", "twoMasters", "delKey", "adv5"}
+	dc := 4
+	if r.Thorough() {
+		dc = 6
+	}
+	vBFS(r, "cascade|", cascAlpha, dc, enabled, func(hist []string) string {
+		c := c09Case{DisableSS: true, Hist: append([]string{"onFull", "mgrTick", "candTick"}, hist...), Cascade: true}
+		r.Crumb(c)
+		return "cascade|" + c09Run(r, c)
+	})
+	r.Bound("initial_states", "converged; full maintenance acknowledged by manager and candidate; light maintenance acknowledged; acknowledged full maintenance with a cascade replica")
 }
